@@ -1,6 +1,6 @@
 (* C10 — property theorems only. Each is closed by `exact` of a lemma proved in Proofs.v /
    ProofsConc.v / Orig.v and is followed by Print Assumptions. *)
-From C10 Require Import Model Spec Proofs Orig.
+From C10 Require Import Model Spec Proofs Orig ModelConc ProofsConc.
 From Coq Require Import Sorting.Sorted.
 
 (* (1) The outcome of a call depends only on the methods defined at that moment: for EVERY
@@ -139,3 +139,81 @@ Theorem C10_guard_nonvacuous :
   List.length (filter (fun o => match o with OpCall _ _ => true | _ => false end) ops_example) = 5.
 Proof. split; [exact (proj1 example_in_guard)|split; [exact (proj1 (proj2 example_in_guard))|reflexivity]]. Qed.
 Print Assumptions C10_guard_nonvacuous.
+
+(* (9) The concurrent clause. The protocol of the Aux mutex as a machine of atomic steps
+   (ModelConc.v: every defmethod, remove-method, call, find-method and compute-applicable-methods
+   is the sequence of steps of the repaired Go code; a schedule picks the routine that moves).
+   For EVERY class table, arity, set of routine programs and schedule (any length, any number of
+   routines), in the state reached:
+   - the log (the operations in the order they took the mutex - each takes it between its
+     invocation and its response, so the order respects real time) contains the operations each
+     routine has begun, in its program order;
+   - the answers of the operations a routine has completed are a prefix of (and, once it has
+     finished, equal to) the answers its operations get when the logged operations run one after
+     the other, alone, in the order of the log (crun = the sequential semantics of Model.v). *)
+Theorem C10_concurrent_linearizable : forall ct n progs sched,
+  let g := grun ct fixed sched (ginit n progs) in
+  let answers := snd (crun ct (new_aux n) (map snd (g_log g))) in
+  forall r rt, nth_error (g_rs g) r = Some rt ->
+    is_prefix (ops_of r (g_log g)) (nth r progs []) /\
+    is_prefix (r_outs rt) (answers_of r (g_log g) answers) /\
+    (r_cur rt = None -> r_todo rt = [] ->
+       ops_of r (g_log g) = nth r progs [] /\ r_outs rt = answers_of r (g_log g) answers).
+Proof. exact concurrent_linearizable. Qed.
+Print Assumptions C10_concurrent_linearizable.
+
+(* the sequential reference of (9) removes with remove-method proper; Model.remove_method (find-method,
+   then remove-method when found) is the same function wherever find-method answers true *)
+Theorem C10_remove_raw_is_remove : forall a q k,
+  (find_method (methods a) q k = true -> remove_raw a q k = remove_method a q k) /\
+  (find_method (methods a) q k = false -> remove_method a q k = a).
+Proof. intros a q k. split; [apply remove_raw_found|apply remove_not_found]. Qed.
+Print Assumptions C10_remove_raw_is_remove.
+
+(* (10) The UNREPAIRED protocol is not linearizable; each witness is a schedule on which the
+   original machine gives an answer that NO interleaving of the programs explains, while the
+   repaired machine answers like an interleaving on the same schedule. Found by this model,
+   reproduced on the implementation, repaired by repo_fixes/C10-6, C10-7, C10-8. *)
+(* the cached effective method shared its combinations with the method table and was run after the unlock *)
+Theorem C10_original_shared_combination_refuted :
+  map r_outs (g_rs (grun ct2 original sched_shared (ginit 1 progs_shared))) =
+    [[CoCall ([Ev 2 [false]], RVal 2)]; [CoNone; CoNone; CoNone]]%N /\
+  (forall seq, In seq (merges2 progs_shared) ->
+     answers_of 0 seq (snd (crun ct2 (new_aux 1) (map snd seq))) <> [CoCall ([Ev 2 [false]], RVal 2)]%N) /\
+  map r_outs (g_rs (grun ct2 fixed sched_shared (ginit 1 progs_shared))) =
+    [[CoCall ([Ev 1 [false]], RVal 1)]; [CoNone; CoNone; CoNone]]%N.
+Proof. exact original_shared_combination_refuted. Qed.
+Print Assumptions C10_original_shared_combination_refuted.
+
+(* the location of a wrapper was kept in the Closure field of the method lambda all calls share *)
+Theorem C10_original_closure_race_refuted :
+  nth 0 (map r_outs (g_rs (grun ct2 original sched_closure (ginit 1 progs_closure)))) [] =
+    [CoNone; CoNone; CoNone; CoCall ([Ev 3 [false]; Ev 2 [false]; EvEnd 3], RVal 2)]%N /\
+  (forall seq, In seq (merges2 progs_closure) ->
+     answers_of 0 seq (snd (crun ct2 (new_aux 1) (map snd seq))) <>
+       [CoNone; CoNone; CoNone; CoCall ([Ev 3 [false]; Ev 2 [false]; EvEnd 3], RVal 2)]%N) /\
+  map r_outs (g_rs (grun ct2 fixed sched_closure (ginit 1 progs_closure))) =
+    [[CoNone; CoNone; CoNone; CoCall ([Ev 3 [false]; Ev 1 [false]; EvEnd 3], RVal 1)];
+     [CoCall ([Ev 3 [false]; Ev 2 [false]; EvEnd 3], RVal 2)]]%N.
+Proof. exact original_closure_race_refuted. Qed.
+Print Assumptions C10_original_closure_race_refuted.
+
+(* find-method / compute-applicable-methods read the method table without the mutex: the Go
+   runtime stops the process when the read meets a map write *)
+Theorem C10_original_unlocked_reader_refuted :
+  map r_outs (g_rs (grun ct2 original sched_reader (ginit 1 progs_reader))) = [[CoNone]; [CoFault]] /\
+  (forall seq, In seq (merges2 progs_reader) ->
+     answers_of 1 seq (snd (crun ct2 (new_aux 1) (map snd seq))) <> [CoFault]) /\
+  map r_outs (g_rs (grun ct2 fixed sched_reader (ginit 1 progs_reader))) = [[CoNone]; [CoFind true]].
+Proof. exact original_unlocked_reader_refuted. Qed.
+Print Assumptions C10_original_unlocked_reader_refuted.
+
+(* (11) non-vacuity of (9): three routines (calls, defmethod, remove-method, find-method,
+   compute-applicable-methods) interleaved step by step; all eleven operations complete *)
+Theorem C10_concurrent_example :
+  let g := grun ct2 fixed sched_example (ginit 1 progs_example) in
+  Forall (fun rt => r_cur rt = None /\ r_todo rt = []) (g_rs g) /\
+  List.length (g_log g) = 11 /\
+  map fst (g_log g) = [0; 1; 2; 0; 1; 2; 0; 1; 2; 0; 2].
+Proof. split; [exact (proj1 example_schedule)|split; [exact (proj1 (proj2 example_schedule))|exact (proj1 (proj2 (proj2 example_schedule)))]]. Qed.
+Print Assumptions C10_concurrent_example.
